@@ -4,6 +4,8 @@ import (
 	"fmt"
 	"os"
 	"path/filepath"
+	"strconv"
+	"strings"
 	"testing"
 
 	"verifharness/ev"
@@ -42,6 +44,29 @@ func fuzzTarget(f *testing.F, id string) {
 		fmt.Printf("VERIF-VIOLATION property=%s replay=%s class=%q :: %s\n", id, path, v.Class, v.Violation)
 		t.Fatalf("violation: %s", v.Violation)
 	})
+}
+
+// TestFuzzFileToCase converts a crasher file written by the native fuzzer
+// (testdata/fuzz/<target>/<hash>) into a replay file of the property.
+func TestFuzzFileToCase(t *testing.T) {
+	src, dst, id := os.Getenv("VERIF_FUZZFILE"), os.Getenv("VERIF_FUZZCASE"), os.Getenv("VERIF_PROP")
+	if src == "" {
+		t.Skip()
+	}
+	b, err := os.ReadFile(src)
+	if err != nil {
+		t.Fatal(err)
+	}
+	lines := strings.SplitN(string(b), "\n", 3)
+	if len(lines) < 2 || !strings.HasPrefix(lines[1], "[]byte(") {
+		t.Fatalf("unexpected corpus file format: %q", b)
+	}
+	lit := strings.TrimSuffix(strings.TrimPrefix(strings.TrimSpace(lines[1]), "[]byte("), ")")
+	data, err := strconv.Unquote(lit)
+	if err != nil {
+		t.Fatal(err)
+	}
+	ev.WriteReplay(dst, id, &TextCase{Bytes: []byte(data), Note: "native-fuzz crasher"}, &ev.Verdict{Violation: "the fuzz worker died on this input"})
 }
 
 func FuzzC14(f *testing.F) { fuzzTarget(f, "C14") }
